@@ -144,7 +144,8 @@ func (c *FenceConn) BeginTx(ctx context.Context, opts driver.TxOptions) (driver.
 		return nil
 	}
 
-	if err := WithFence(ctx, fenceTx, emptyCallback); err != nil {
+	// assign the function's err (not a shadow) so that the deferred cleanup above sees the failure
+	if err = WithFence(ctx, fenceTx, emptyCallback); err != nil {
 		return nil, err
 	}
 
